@@ -256,11 +256,16 @@ func main() {
 	best := map[string]pick{}
 	sigConfigs := map[string][]string{}
 	worst := map[string]int{}
+	var wbOK, wbBad int64
 	for _, r := range results {
 		row := map[string]any{"config": r.Name, "states": r.States, "transitions": r.Transitions, "bfs_depth": r.Depth,
 			"closed": r.Closed, "response_bound": r.Bounds}
 		if r.m != nil {
 			row["registers_dirtied_before_reset_check"] = r.m.dirtied
+			row["whitebox_agree"] = r.m.wbOK
+			row["whitebox_disagree"] = r.m.wbBad
+			wbOK += r.m.wbOK
+			wbBad += r.m.wbBad
 		}
 		if r.Err != "" {
 			row["error"] = r.Err
@@ -323,6 +328,11 @@ func main() {
 	run.Set("states", states)
 	run.Set("transitions", trans)
 	run.Set("traces_validated_against_impl", trans)
+	run.Set("whitebox_transitions_internal_registers_agree", wbOK)
+	run.Set("whitebox_transitions_internal_registers_disagree", wbBad)
+	if wbBad > 0 {
+		fmt.Printf("note: %d transitions reach a state whose sp/readsp/writesp/memory differ from the abstract sequence (not an alarm by itself)\n", wbBad)
+	}
 	run.Set("configurations", len(results))
 	run.Set("configurations_closed", closed)
 	run.Set("configurations_capped", capped)
